@@ -37,13 +37,16 @@ func tbMode(args []string) {
 		if cf.Only >= 0 && idx != cf.Only {
 			continue
 		}
-		tbCase(o, cf, r, idx)
+		if !tbCase(o, cf, r, idx) {
+			o.Count("tb_cases_skipped_after_hang")
+			return
+		}
 	}
 }
 
 var tbSizes = []int{64, 128, 192, 4096, 8192, 4096, 8192, 512}
 
-func tbCase(o *hxlib.Out, cf *hxlib.CommonFlags, r *hxlib.Rng, idx int) {
+func tbCase(o *hxlib.Out, cf *hxlib.CommonFlags, r *hxlib.Rng, idx int) bool {
 	n := 2 + idx%4
 	nb := 1 + r.Intn(3)
 	var sizes []int
@@ -113,7 +116,7 @@ func tbCase(o *hxlib.Out, cf *hxlib.CommonFlags, r *hxlib.Rng, idx int) {
 	}
 	if setupErr != nil {
 		o.Fail("c10-tb-setup", with(base, "err", setupErr.Error()))
-		return
+		return true
 	}
 	nws := make([]*gmw.Network, n)
 	for p := 0; p < n; p++ {
@@ -146,14 +149,14 @@ func tbCase(o *hxlib.Out, cf *hxlib.CommonFlags, r *hxlib.Rng, idx int) {
 				errs[p] = nws[p].VerifTripleBatch(size)
 			}(p)
 		}
-		if !waitAll(&wg, 60*time.Second) {
+		if !waitAll(&wg, 10*time.Minute) {
 			o.Fail("c10-timeout", with(base, "phase", "tripleBatch"))
-			return
+			return false
 		}
 		for p, e := range errs {
 			if e != nil {
 				o.Fail("c10-triple-batch-error", with(base, "party", p, "err", e.Error()))
-				return
+				return true
 			}
 		}
 	}
@@ -167,7 +170,7 @@ func tbCase(o *hxlib.Out, cf *hxlib.CommonFlags, r *hxlib.Rng, idx int) {
 		for p := 0; p < n; p++ {
 			if snaps[p].Words < off+words {
 				o.Fail("c10-pool-words-differ", with(base, "party", p, "words", snaps[p].Words))
-				return
+				return true
 			}
 		}
 		// shadow run: sBits[p][q] of sender p towards q, rBits[q][p] at receiver q
@@ -188,17 +191,17 @@ func tbCase(o *hxlib.Out, cf *hxlib.CommonFlags, r *hxlib.Rng, idx int) {
 				rb := make([]uint64, words)
 				if err := pr.R2.ReceiveBits(snaps[q].B[off:off+words], rb, size); err != nil {
 					o.Fail("c10-tb-setup", with(base, "err", err.Error()))
-					return
+					return true
 				}
 				sb := make([]uint64, words)
 				if err := pr.S2.SendBits(size, sb); err != nil {
 					o.Fail("c10-tb-setup", with(base, "err", err.Error()))
-					return
+					return true
 				}
 				s[p][q], rr[q][p], dl[p][q] = sb, rb, pr.S2.Delta.Bit(0)
 				if pr.S2.Delta != pr.S.Delta {
 					o.Fail("c10-tb-setup", with(base, "err", "shadow delta differs"))
-					return
+					return true
 				}
 				o.Count(fmt.Sprintf("tb_delta_bit0_%d", dl[p][q]))
 				// bit-COT correlation (property C06) on what tripleBatch consumed
@@ -248,4 +251,5 @@ func tbCase(o *hxlib.Out, cf *hxlib.CommonFlags, r *hxlib.Rng, idx int) {
 		o.Count(fmt.Sprintf("tb_parties_%d", n))
 		off += words
 	}
+	return true
 }
